@@ -160,9 +160,12 @@ def judge(ck, pid, progs, results):
                 else:
                     key = f"{population.src_hash(prog['src'])}/mismatch"
                     what = f"{r['name']}: compiled machine and reference semantics disagree on word {r['word']}"
-                ck.report(key, what, {"program": prog["src"], "args": prog["args"], "witness_word": r["word"],
-                                      "checker": r["detail"], "without_loose_actions": r["loose"],
-                                      "c_replay": replay_on_binary(prog, r["word"], wd)})
+                if not ck.report(key, what, {"program": prog["src"], "args": prog["args"], "witness_word": r["word"],
+                                             "checker": r["detail"], "without_loose_actions": r["loose"],
+                                             "c_replay": replay_on_binary(prog, r["word"], wd)}):
+                    # an instance of a recorded finding (printed as KNOWN-FINDING): not an obligation of this run
+                    ck.obligations -= 1
+                    st["known_finding_instances"] = st.get("known_finding_instances", 0) + 1
             elif s in ("timeout", "fuel"):
                 # the model's exploration budget ran out: nothing decided for this program (a tool
                 # limit, reported in the evidence; too many of them fails the run as a tool error)
@@ -192,7 +195,7 @@ def judge(ck, pid, progs, results):
 
 
 def run(pid, theorems, module, progs, rule, known_corpus=()):
-    ck = Check(pid, "translation_validation")
+    ck = Check(pid, {"C07": "proof", "C16": "proof"}.get(pid, "translation_validation"))   # as claimed in MANIFEST.json
     ck.lean_obligations(module, theorems)
     results = collect(pid, progs)
     st, distinct = judge(ck, pid, progs, results)
